@@ -332,8 +332,35 @@ class Program:
             if isinstance(f.value, ast.Call) and isinstance(f.value.func, ast.Name) and f.value.func.id == "super" and fi.cls is not None:
                 return self.find_method(fi.cls, f.attr, after=fi.cls)
             if isinstance(f.value, ast.Name) and self._is_local(fi, f.value.id):
+                ci = self.param_class(fi, f.value.id)
+                if ci is not None:
+                    return self.find_method(ci, f.attr)
                 return None
             return self.resolve_expr(fi.mod, f)
+        return None
+
+    def param_class(self, fi, name):
+        """the package class a parameter is annotated with (`def helper(algo: FDD)`), when the parameter is never re-bound"""
+        a = fi.node.args
+        for x in a.posonlyargs + a.args + a.kwonlyargs:
+            if x.arg == name and x.annotation is not None:
+                if any(isinstance(n, ast.Name) and n.id == name and isinstance(n.ctx, ast.Store) for n in ast.walk(fi.node)):
+                    return None
+                ann = x.annotation
+                if isinstance(ann, ast.Constant) and isinstance(ann.value, str):
+                    try:
+                        ann = ast.parse(ann.value, mode="eval").body
+                    except SyntaxError:
+                        return None
+                if isinstance(ann, ast.Subscript):
+                    ann = ann.value
+                if isinstance(ann, (ast.Name, ast.Attribute)):
+                    try:
+                        r = self.resolve_expr(fi.mod, ann)
+                    except Exception:
+                        r = None
+                    if isinstance(r, ClassInfo):
+                        return r
         return None
 
     def _is_local(self, fi, name):
